@@ -13,6 +13,12 @@ def variant_int(v):
             "bool_value": NONE, "dt_from": NONE, "dt_to": NONE}
 
 
+def variant_float(v):
+    d = variant_int(v)
+    d["value_type"] = interp.V("VariantType::Float")
+    return d
+
+
 class Run:
     def __init__(self, ctx):
         import norm
@@ -22,7 +28,7 @@ class Run:
         tys = norm.param_types(ctx.prog.fns[GCEV].get("sig"))
         self.by_ty = list(zip(self.ps, tys))
 
-    def run(self, kind, minus=False, memo=None, entry=True):
+    def run(self, kind, minus=False, memo=None, entry=True, selfv=None):
         """kind: "field" | "function" | "val" | "arith".  -> (returned Variant, events, memo map after)"""
         ev = []
         some, NONE = interp.some, interp.NONE
@@ -63,7 +69,7 @@ class Run:
             if m == "calc":
                 vs = [a for a in args if isinstance(a, dict) and "string_value" in a]
                 ev.append(("calc",) + tuple(v["string_value"] for v in vs))
-                return (variant_int(34),)
+                return (variant_float(34),)      # ArithmeticOp::calc yields a float
             return None
         env = {}
         for p, t in self.by_ty:
@@ -77,7 +83,7 @@ class Run:
             elif "Vec<" in t:
                 env[p["id"]] = NONE
             elif "Searcher" in t:
-                env[p["id"]] = {"__searcher": True}
+                env[p["id"]] = selfv if selfv is not None else interp.LazySelf({"__searcher": True})
             else:
                 env[p["id"]] = interp.Opaque(nm or "?")
         got = interp.Interp(call=call, prog=self.ctx.prog, max_steps=40000).run(self.hir, env)
@@ -153,7 +159,7 @@ class FunRun:
             elif "Vec<" in t:
                 env[p["id"]] = some(partition) if partition is not None else NONE
             elif "Searcher" in t:
-                env[p["id"]] = {"raw_output_buffer": whole}
+                env[p["id"]] = interp.LazySelf({"raw_output_buffer": whole})
             else:
                 env[p["id"]] = interp.Opaque(p.get("name") or "?")
         got = interp.Interp(call=call, prog=self.ctx.prog, max_steps=40000).run(self.hir, env)
@@ -187,3 +193,38 @@ def nested_scope(ctx):
                               (sc[1], "an aggregate" if aggregate else "a scalar", "the whole buffer (buffer_data = None)" if sc[2] == "none" else "other rows"))
     ctx.covered("argument evaluations of get_function_value inside a group (partition handed on)", n, distinct_keys=["scalar", "aggregate"], exhaustive=True)
     ctx.floor(n, 3, "argument evaluations inside a group", GFUNV)
+
+
+def reevaluation_is_stable(ctx):
+    """X-REEVAL: an expression evaluated twice for the same entry, each time with a map of its own (as the conditions of a
+    WHERE clause do), has the same *typed* value both times: the verdict of `A and B` must not depend on which atoms were
+    evaluated before.  get_column_expr_value is evaluated twice in a row on one Searcher state per node kind x minus; a memo
+    outside the map it is handed (a per-entry cache on the Searcher) that answers with a text, or with a stale value, shows
+    as a second result of another kind"""
+    run = Run(ctx)
+    n = 0
+    for kind in ("function", "field", "arith", "val"):
+        for minus in (False, True):
+            selfv = interp.LazySelf({"__searcher": True})
+            try:
+                a, ev1, _, text = run.run(kind, minus, selfv=selfv)
+                b, ev2, _, _ = run.run(kind, minus, selfv=selfv)
+            except interp.Undecided as e:
+                ctx.obligation(False)
+                ctx.violation("reeval/unreadable/%s" % kind, ctx.where(GCEV), "cannot evaluate get_column_expr_value twice on a `%s` node: %s" % (kind, e))
+                continue
+            n += 1
+            if isinstance(a, dict) and isinstance(b, dict):
+                common = [k for k in a if k in b and not k.startswith("__")]
+                ok = "value_type" in common and all(a[k] == b[k] for k in common)
+            else:
+                ok = a == b
+            ctx.obligation(ok)
+            if not ok:
+                kind_of = lambda v: v.get("value_type").name.split("::")[-1] if isinstance(v, dict) and isinstance(v.get("value_type"), interp.V) else "?"
+                ctx.violation("reeval/%s" % kind, ctx.where(GCEV),
+                              "evaluated a second time for the same entry (with a fresh map, as the next condition of a WHERE clause does), the `%s` node `%s` "
+                              "yields a %s value `%s` where the first evaluation gave a %s value `%s`: comparisons dispatch on the type, so `A and B` depends on "
+                              "what was evaluated before" % (kind, text, kind_of(b), text_of(ctx, b), kind_of(a), text_of(ctx, a)))
+    ctx.covered("expression nodes evaluated twice on one Searcher state (typed value stable)", n, distinct_keys=["function", "field", "arith", "val"], exhaustive=True)
+    ctx.floor(n, 8, "re-evaluations of get_column_expr_value", GCEV)
